@@ -9,6 +9,7 @@ package schema
 
 import (
 	"fmt"
+	"math"
 	"reflect"
 	"strconv"
 	"strings"
@@ -720,6 +721,20 @@ func parseDirectives(tag string) []string {
 	return directives
 }
 
+// parseFiniteFloat parses a number of a jsonschema tag. ParseFloat also accepts "NaN", "Inf" and "Infinity", which JSON
+// cannot represent: a schema holding one cannot be serialised (tools/list would fail for the whole server), so they are
+// treated like any other unparsable value.
+func parseFiniteFloat(value string) (float64, error) {
+	f, err := strconv.ParseFloat(value, 64)
+	if err != nil {
+		return 0, err
+	}
+	if math.IsNaN(f) || math.IsInf(f, 0) {
+		return 0, fmt.Errorf("non-finite number %q", value)
+	}
+	return f, nil
+}
+
 // parseJSONSchemaTags parses jsonschema struct tags and applies them to the schema
 func parseJSONSchemaTags(tag reflect.StructTag, schema *openapi3.Schema) error {
 	jsonschemaTag := tag.Get("jsonschema")
@@ -758,11 +773,11 @@ func parseJSONSchemaTags(tag reflect.StructTag, schema *openapi3.Schema) error {
 			case "pattern":
 				schema.Pattern = value
 			case "minimum":
-				if min, err := strconv.ParseFloat(value, 64); err == nil {
+				if min, err := parseFiniteFloat(value); err == nil {
 					schema.Min = &min
 				}
 			case "maximum":
-				if max, err := strconv.ParseFloat(value, 64); err == nil {
+				if max, err := parseFiniteFloat(value); err == nil {
 					schema.Max = &max
 				}
 			case "minLength":
@@ -799,7 +814,7 @@ func parseJSONSchemaTags(tag reflect.StructTag, schema *openapi3.Schema) error {
 							schema.Default = value // fallback to string
 						}
 					case "number":
-						if floatVal, err := strconv.ParseFloat(value, 64); err == nil {
+						if floatVal, err := parseFiniteFloat(value); err == nil {
 							schema.Default = floatVal
 						} else {
 							schema.Default = value // fallback to string
